@@ -14,6 +14,7 @@ package main
 
 import (
 	"bufio"
+	"context"
 	"encoding/json"
 	"flag"
 	"fmt"
@@ -27,6 +28,8 @@ import (
 	"sync"
 	"syscall"
 	"time"
+
+	"github.com/prometheus/prometheus/tsdb/chunkenc"
 
 	"verif/harness/internal/gallina"
 	"verif/harness/internal/gen"
@@ -145,7 +148,7 @@ type blkInfo struct {
 	Parents    []string
 }
 
-func smp(s WSample) string { return fmt.Sprintf("sm %d %d %d", s.S, s.T, s.V) }
+func smp(s WSample) string { return fmt.Sprintf("sm %d %d %d", s.S, s.T, s.code()) }
 
 func listInts(v []int) string {
 	it := make([]string, len(v))
@@ -239,6 +242,8 @@ func buildOps(w *Workload, rl *runLog) (ops []mop, hist []string, accepted map[i
 			ord := deleteOrder(rl, api, ids)
 			ops = append(ops, mop{API: api, IsDelete: true, Order: ord, Text: delText(op, ord), RenameHit: -1})
 			hist = append(hist, fmt.Sprintf("hdel %d %d %s", op.Mint, op.Maxt, listInts(op.Sel)))
+		case "restart":
+			hist = append(hist, "HNop")
 		case "compact", "compactooo", "compactooo_race":
 			hist = append(hist, "HNop")
 			lastCut := int64(math.MinInt64)
@@ -400,26 +405,65 @@ func reopen(dir string, w *Workload) (obs []obsSample, openErr string) {
 		return nil, err.Error()
 	}
 	defer db.Close()
-	ss, err := db.Query(math.MinInt64, math.MaxInt64, tsdbx.MatchAll("k"))
+	q, err := db.DB.Querier(math.MinInt64, math.MaxInt64)
 	if err != nil {
-		return nil, "query: " + err.Error()
+		return nil, "querier: " + err.Error()
 	}
-	for _, s := range ss {
-		var sid int64 = 1 << 40
-		if i := strings.Index(s.Labels, `s="`); i >= 0 {
-			fmt.Sscanf(s.Labels[i+3:], "%d", &sid)
+	defer q.Close()
+	const alien = int64(1) << 50 // not a value code of the workload
+	code := func(f float64, kind int64) int64 {
+		if f == math.Trunc(f) && f >= 0 && f < kindTag {
+			return kind*kindTag + int64(f)
 		}
-		for _, x := range s.Samples {
-			v := int64(1) << 50 // not an integer code
-			if x.V == math.Trunc(x.V) && x.V >= 0 && x.V < 1e15 {
-				v = int64(x.V)
+		return alien
+	}
+	ss := q.Select(context.Background(), true, nil, tsdbx.MatchAll("k"))
+	for ss.Next() {
+		sr := ss.At()
+		ls := sr.Labels().String()
+		var sid int64 = 1 << 40
+		if i := strings.Index(ls, `s="`); i >= 0 {
+			fmt.Sscanf(ls[i+3:], "%d", &sid)
+		}
+		it := sr.Iterator(nil)
+		for vt := it.Next(); vt != chunkenc.ValNone; vt = it.Next() {
+			var t, v int64
+			switch vt {
+			case chunkenc.ValFloat:
+				tt, f := it.At()
+				t, v = tt, code(f, 0)
+			case chunkenc.ValHistogram:
+				tt, h := it.AtHistogram(nil)
+				kind := int64(1)
+				if h.UsesCustomBuckets() {
+					kind = 3
+				}
+				t, v = tt, code(h.Sum, kind)
+				if h.Count != 3 || len(h.PositiveBuckets) != 2 {
+					v = alien
+				}
+			case chunkenc.ValFloatHistogram:
+				tt, fh := it.AtFloatHistogram(nil)
+				kind := int64(2)
+				if fh.UsesCustomBuckets() {
+					kind = 4
+				}
+				t, v = tt, code(fh.Sum, kind)
+				if fh.Count != 3 || len(fh.PositiveBuckets) != 2 {
+					v = alien
+				}
 			}
-			t := x.T
 			if t < 0 {
-				t = 1 << 50
+				t = alien
 			}
 			obs = append(obs, obsSample{sid, t, v})
 		}
+		if it.Err() != nil {
+			return nil, "iterate: " + it.Err().Error()
+		}
+	}
+	if ss.Err() != nil {
+		return nil, "query: " + ss.Err().Error()
 	}
 	sort.Slice(obs, func(i, j int) bool {
 		if obs[i].S != obs[j].S {
@@ -460,6 +504,16 @@ func main() {
 	cseed := flag.Uint64("snapseed", 0, "child: snapshot selection seed")
 	mode := flag.String("mode", "parent", "parent|child")
 	for _, a := range os.Args[1:] {
+		if a == "reopen" {
+			// debugging aid: print what a reopen of -dir returns (workload options from -wl)
+			flag.Parse()
+			var w Workload
+			b, _ := os.ReadFile(*cwl)
+			json.Unmarshal(b, &w)
+			obs, oerr := reopen(*cdir, &w)
+			fmt.Println(obs, oerr)
+			return
+		}
 		if a == "child" {
 			flag.Parse()
 			childMain(*cdir, *cwl, *clog, *ccrash, *cclass, *csnap, *crate, *cseed)
@@ -620,7 +674,8 @@ func parent(f gallina.Flags) {
 		}
 	}
 
-	corpus := []Workload{corpusMixedMerge(), corpusDeleteStraddle(), corpusOOORace()}
+	corpus := []Workload{corpusMixedMerge(), corpusDeleteStraddle(), corpusOOORace(), corpusKindPairs(),
+		genKindsWorkload(gen.Fork(f.Seed^0x6b696e64, 0), "kinds-random", 24)}
 	for wi := -len(corpus); wi < nWork; wi++ {
 		var w Workload
 		rate := snapRate
@@ -629,6 +684,9 @@ func parent(f gallina.Flags) {
 			rate = 0
 			if wi < -1 {
 				rate = 1000 // small workloads: every hit
+			}
+			if w.Kinds {
+				rate = 40 // many short transactions: a sample of their hits
 			}
 		} else {
 			ph := phases
@@ -716,6 +774,9 @@ func parent(f gallina.Flags) {
 				if len(rl.Hits) > 0 {
 					h := rl.Hits[len(rl.Hits)-1]
 					crash = fmt.Sprintf("%s:%d", h.Site, h.N)
+					if w.Kinds {
+						crash += " (or right after the acknowledgement that follows it)"
+					}
 				}
 				process(c, d, rl, "snapshot", crash)
 			})
@@ -743,6 +804,9 @@ func parent(f gallina.Flags) {
 						if h.Kind > 0 {
 							last = h
 						}
+					}
+					if w.Kinds {
+						last = ref.Hits[len(ref.Hits)-1] // the very last hit: nothing is compacted or m-mapped yet
 					}
 					crash = fmt.Sprintf("%s:%d", last.Site, last.N)
 				} else {
